@@ -77,6 +77,8 @@ def draw_cell(rng):
             moment = datetime.datetime(1900, 3, 1) + datetime.timedelta(days=rng.randrange(0, 1400))
         return ["date", moment.strftime("%Y-%m-%d %H:%M:%S")]
     if kind == "t":
+        if rng.random() < 0.05:
+            return ["t", "00:00:00", 0.0]  # midnight: the serial number is exactly 0
         seconds = rng.randrange(1, 86400)
         return ["t", str(datetime.time(seconds // 3600, seconds // 60 % 60, seconds % 60)), rng.choice([0.0, 0.0, 0.25, -0.3])]
     return None
@@ -100,7 +102,7 @@ def generate(seed, tier):
     rng = core.stream(seed, "gen")
     swarm = core.stream(seed, "swarm")
     if swarm.random() < 0.25:
-        alphabet = swarm.choice([["a", "b", ""], ["a b", " a", "x\ty", "l1\nl2", "", "l1\r\nl2", "\r"], ["<&>", "ü€", "=1+1", "'q", "<r>x</r>", "<t>y</t>"], ["1", "2.50", "TRUE", "01067", "00", "\u0663\u0664", "007"], ["x" * 32767, "x" * 32766, "ab"]])
+        alphabet = swarm.choice([["a", "b", ""], ["a b", " a", "x\ty", "l1\nl2", "", "l1\r\nl2", "\r"], ["<&>", "ü€", "=1+1", "'q", "<r>x</r>", "<t>y</t>", "@home", "+1", "-x"], ["1", "2.50", "TRUE", "01067", "00", "\u0663\u0664", "007"], ["x" * 32767, "x" * 32766, "ab"]])
         table = [[rng.choice(alphabet) for _ in range(rng.randint(1, 5))] for _ in range(rng.randint(0, 5))]
         # how the rows reach the writer: one by one, as one batch, or as any mix of single rows and batches
         batches = None
